@@ -278,6 +278,20 @@ def build_describe_batch(
 # Protocol hash
 # ---------------------------------------------------------------------------
 
+_HASH_FRAMING_CHARS = "\x1e\x1f"
+"""Field / row separators of the canonical ``protocol_hash`` payload.
+
+The payload is separator-framed (no length prefixes), so a protocol or method
+name containing one of these characters could make two different protocols
+produce the same payload.  Such names are rejected instead of hashed.
+"""
+
+
+def _require_unambiguous_name(what: str, name: str) -> None:
+    """Reject a name that would make the ``protocol_hash`` framing ambiguous."""
+    if any(c in name for c in _HASH_FRAMING_CHARS):
+        raise ValueError(f"{what} {name!r} contains a protocol_hash framing separator (U+001E or U+001F)")
+
 
 def compute_protocol_hash(protocol_name: str, batch: pa.RecordBatch) -> str:
     """Return the SHA-256 hex digest of the canonical describe payload.
@@ -302,9 +316,15 @@ def compute_protocol_hash(protocol_name: str, batch: pa.RecordBatch) -> str:
     Returns:
         Lowercase 64-character hex SHA-256 digest.
 
+    Raises:
+        ValueError: If the protocol name or a method name contains one of the
+            payload's framing separators (U+001E, U+001F); hashing such a name
+            would let distinct protocols share a hash.
+
     """
     import hashlib
 
+    _require_unambiguous_name("protocol name", protocol_name)
     h = hashlib.sha256()
     h.update(b"vgi_rpc.describe.v")
     h.update(DESCRIBE_VERSION.encode())
@@ -323,6 +343,7 @@ def compute_protocol_hash(protocol_name: str, batch: pa.RecordBatch) -> str:
     header_col = batch.column("header_schema_ipc")
     is_exchange_col = batch.column("is_exchange")
     for i in range(n):
+        _require_unambiguous_name("method name", name_col[i].as_py())
         h.update(b"\x1f")
         h.update(name_col[i].as_py().encode())
         h.update(b"\x1e")
